@@ -47,6 +47,8 @@ def norm(v):
             return "<%s %s>" % (type(v).__name__, objpath(v))
     except Exception:
         pass
+    if isinstance(v, probe.Bomb):
+        return repr(v)
     if callable(v) and hasattr(v, "__name__"):
         return "<fn %s>" % v.__name__
     return "<%s>" % type(v).__name__
@@ -103,6 +105,8 @@ class World:
             return None
         if t == "fn":
             return getattr(probe, vs["v"])
+        if t == "bomb":
+            return probe.Bomb(vs["v"])
         if t == "obj":
             s = self.space(vs["space"]) if vs.get("space") else self.m
             if vs.get("cells"):
